@@ -23,7 +23,7 @@ ASSUMPTIONS = [
     "chunk maximality is only demanded on time-sorted input whose gaps are all below the pulsetime",
 ]
 BASE_US = 1_600_000_000_000_000
-VALUES = ["x", "y", 1, 2, None, ["x"], ["x", "y"], 0, "", [], "1", "None", ["1"], [1]]  # incl. falsy values, which are values all the same
+VALUES = ["x", "y", 1, 2, None, ["x"], ["x", "y"], 0, "", [], "1", "None", ["1"], [1], '["x"]', "[]", "()"]  # incl. strings that spell a list  # incl. falsy values, which are values all the same
 
 
 def budget(tier):
